@@ -2412,6 +2412,12 @@ impl RaftNode {
             return;
         }
 
+        // A response from an earlier term describes a log this leadership never
+        // replicated; it must not move next_index/match_index.
+        if aer.term < persistent.current_term {
+            return;
+        }
+
         let should_advance_commit = {
             let mut leadership = self.leadership.write();
             if let Some(ref mut ls) = leadership.leader_volatile {
